@@ -9,9 +9,11 @@ RULE = (
     "measurement and the offset drawn independently (all signs, w<0, w=0, |w| tiny, theta on both sides of +-pi, translations up "
     "to 1e6, offsets with arbitrary rotation). Oracle O1: Richardson central differences of the edge's own calc_error under "
     "vertex.pose + delta; O2: forward-mode AD of the independent reference error model w.r.t. the reference boxplus. "
+    "History: calc_jacobians is called before any other query on the fresh edge and again right after the vertices are moved to a second state "
+    "(an independent pose, or the same physical pose in another representation: -q / theta+2pi), so a Jacobian that depends on earlier calls is caught. "
     "Non-trivial = an operand outside the suite's box [0,1)^k or an offset with non-identity rotation; distinct = hash of the case."
 )
-BUDGET = {"quick": 16 * 2000, "thorough": 16 * 60000}
+BUDGET = {"quick": 16 * 4000, "thorough": 16 * 60000}
 TOLERANCES = {
     "O1 (Richardson CD of calc_error, h=2^-10 and 2^-11)": "1e-8*(1+S) translation rows, 1e-8 rotation rows",
     "O2 (AD of reference model)": "1e-11*(1 + S*[translation row]*[rotation column])",
@@ -27,7 +29,25 @@ H = 2.0**-10
 
 @S.composite
 def strategy_(g):
-    return E.gen_edge(g, info_kind=g.choice(["ident", "spd"]), max_cond=1e2)
+    case = E.gen_edge(g, info_kind=g.choice(["ident", "spd"]), max_cond=1e2)
+    # a second state for the same edge object (history): the Jacobians must follow the *current* vertex poses
+    alt = g.choice(["same-pose-other-representation", "independent", "independent"])
+    case["alt"] = alt
+    if alt == "independent":
+        case["p1b"] = g.pose(case["p1"]["k"], s=g.choice([1.0, 10.0]))
+        case["p2b"] = g.pose(case["p2"]["k"], s=g.choice([1.0, 10.0]))
+    else:
+        def other_repr(p):
+            v = list(p["v"])
+            if p["k"] == "se3":
+                v[3:] = [-x for x in v[3:]]
+            elif p["k"] == "se2":
+                v[2] = v[2] + 2 * np.pi * g.rnd.choice([-1, 1])
+            return {"k": p["k"], "v": v}
+        which = g.choice(["p1", "p2", "both"])
+        case["p1b"] = other_repr(case["p1"]) if which in ("p1", "both") else case["p1"]
+        case["p2b"] = other_repr(case["p2"]) if which in ("p2", "both") else case["p2"]
+    return case
 
 
 def strategy(tier):
@@ -75,6 +95,8 @@ def check(case, ctx):
     c = [R.CDIM[k0], R.CDIM[k1]]
     n = E.err_dim(ek)
 
+    # the Jacobians are requested BEFORE any other query on the fresh edge: they must not depend on earlier calls
+    J_first = [np.array(J, dtype=float) for J in edge.calc_jacobians()]
     e0 = np.array(edge.calc_error(), dtype=float)
     if e0.shape != (n,):
         return ctx.fail("error-shape", "calc_error shape %s, expected (%d,)" % (e0.shape, n))
@@ -87,6 +109,8 @@ def check(case, ctx):
     for i in range(2):
         if Js[i].shape != (n, c[i]):
             return ctx.fail("jacobian-shape", "Jacobian %d has shape %s, expected %s" % (i, Js[i].shape, (n, c[i])))
+        if len(J_first) != 2 or J_first[i].shape != Js[i].shape or not np.array_equal(J_first[i], Js[i]):
+            return ctx.fail("jacobian-depends-on-call-history", "calc_jacobians() on a fresh edge differs from calc_jacobians() after calc_error() (vertex %d, edge %s)" % (i, ek))
 
     rp1, rp2, rz, roff = E.ref_operands(edge)
     eref, J0, J1 = E.ref_error_and_jacobians(ek, rp1, rp2, rz, roff)
@@ -144,6 +168,42 @@ def check(case, ctx):
         tol1 = 1e-8 * (1.0 + S_ * rowT[:, None] * np.ones(c[i])[None, :])
         if ctx.check_close("jacobian-vs-CD", "J[%d] vs Richardson CD(calc_error)" % i, Js[i], Jcd, tol1, "edge %s" % ek):
             return
+
+    # ---- history: move the vertices (new state of the same edge object) and ask for the Jacobians first
+    if "p1b" in case:
+        ctx.event("alt:" + case["alt"])
+        v1.pose = gs.mk_pose(case["p1b"])
+        v2.pose = gs.mk_pose(case["p2b"])
+        Jn = [np.array(J, dtype=float) for J in edge.calc_jacobians()]
+        en = np.array(edge.calc_error(), dtype=float)
+        rp1, rp2, rz, roff = E.ref_operands(edge)
+        eref, J0, J1 = E.ref_error_and_jacobians(ek, rp1, rp2, rz, roff)
+        Sb = max(S_, gs.max_trans(case["p1b"], case["p2b"]))
+        sgn = 1.0
+        both = False
+        if ek == "odo:se3":
+            if float(np.linalg.norm(eref[3:])) < 1e-9:
+                both = True
+            elif float(np.dot(en[3:], eref[3:])) < 0:
+                sgn = -1.0
+        for i, (kv, Jr) in enumerate(zip((k0, k1), (J0, J1))):
+            colR = np.zeros(c[i])
+            if kv == "se2":
+                colR[2] = 1.0
+            elif kv == "se3":
+                colR[3:] = 1.0
+            Jr = Jr.copy()
+            if ek == "odo:se3":
+                if both:
+                    if np.abs(Jn[i][3:] + Jr[3:]).max() < np.abs(Jn[i][3:] - Jr[3:]).max():
+                        Jr[3:] = -Jr[3:]
+                else:
+                    Jr[3:] = sgn * Jr[3:]
+            tol2 = 1e-11 * (1.0 + Sb * rowT[:, None] * colR[None, :])
+            if ctx.check_close("jacobian-stale-after-state-change", "J[%d] after moving the vertices vs AD(reference)" % i, Jn[i], Jr, tol2, "edge %s, %s" % (ek, case["alt"])):
+                return
+        v1.pose = gs.mk_pose(case["p1"])
+        v2.pose = gs.mk_pose(case["p2"])
 
     # the vertices were restored bit-exactly by our own probing
     if gs.bits(v1.pose) != gs.bits(gs.mk_pose(case["p1"])) or gs.bits(v2.pose) != gs.bits(gs.mk_pose(case["p2"])):
